@@ -25,6 +25,8 @@ PRIOS = ('now', 'crew_idle', 'doing_empty', 'todo_empty', 'garbage')
 
 
 class Driver:
+    max_arch = 0
+
     def __init__(self, max_sub, max_req, max_cycles, prios=PRIOS, max_reset=0):
         self.max_reset = max_reset
         import dawgie
@@ -103,6 +105,7 @@ class Driver:
         self.sub = None
         self.nsub = self.nreq = self.cycles = 0
         self.nreset = 0
+        self.narch = 0
         self.reset_refused = None
         self.booted = False
         self.calls = []
@@ -147,6 +150,10 @@ class Driver:
             evs.append(('s3',))
             # the poster has closed its connection without reading the answer
             evs.append(('s3', 'client-gone'))
+        if self.narch < self.max_arch and w.fsm.state == 'running' and w.fsm.transitioning.name == 'active':
+            # new data on an idle farm: farm.dispatch takes the pipeline into the
+            # archive and back (its background step is an explorer-owned thread)
+            evs.append(('archive',))
         if self.nreset < self.max_reset:
             # the operator's POST /api/cmd/reset, at any moment
             evs.append(('cmd-reset',))
@@ -197,6 +204,9 @@ class Driver:
                 if len(ev) > 1:
                     p._Process__request.gone = True
                 p.step_3(None)
+            elif kind == 'archive':
+                self.narch += 1
+                f.archiving_trigger()
             elif kind == 'cmd-reset':
                 import json
                 import dawgie.fe.api
@@ -237,7 +247,7 @@ class Driver:
     def canon(self):
         w = self.w
         return (w.snapshot(), self.booted, None if self.sub is None else self.sub[1],
-                self.nsub, self.nreq, self.nreset, self.cycles, self.work(),
+                self.nsub, self.nreq, self.nreset, self.narch, self.cycles, self.work(),
                 tuple(p.name for p in self.since_reset), self.cycle_updates)
 
 
@@ -346,6 +356,7 @@ def job(args):
     from . import explore
     dr = Driver(max_sub, max_req, max_cycles, prios, max_reset)
     dr.flavor = args[7] if len(args) > 7 else 'api'
+    dr.max_arch = args[8] if len(args) > 8 else 0
 
     def build(hist, report=None):
         dr.reset()
@@ -376,7 +387,7 @@ def job(args):
     res = explore.replay_bfs(expand, k0, cap=400000)
     viol = {}
     for sig, what, hist in res['violations']:
-        v = viol.setdefault(sig, {'what': what, 'replay': {'history': hist, 'bounds': [max_sub, max_req, max_cycles], 'max_reset': max_reset, 'flavor': dr.flavor,
+        v = viol.setdefault(sig, {'what': what, 'replay': {'history': hist, 'bounds': [max_sub, max_req, max_cycles], 'max_reset': max_reset, 'flavor': dr.flavor, 'max_arch': dr.max_arch,
                                                           'prios': list(prios)}, 'count': 0})
         v['count'] += 1
         if len(hist) < len(v['replay']['history']):
@@ -395,6 +406,8 @@ def run(ctx):
                 (ctx.tier, ctx.seed, 1, 3, 1, ('todo_empty', 'doing_empty', 'crew_idle')),
                 # the operator's reset command at any moment next to two submissions
                 (ctx.tier, ctx.seed, 2, 1, 1, ('crew_idle', 'todo_empty'), 1),
+                # an archive (pipeline leaves running and comes back) at any moment while a waiter polls
+                (ctx.tier, ctx.seed, 1, 1, 1, ('crew_idle', 'todo_empty', 'doing_empty'), 0, 'api', 1),
                 # the legacy submit end point (fe.submit.Process)
                 (ctx.tier, ctx.seed, 2, 1, 1, ('now', 'crew_idle', 'todo_empty'), 0, 'old')]
     else:
@@ -432,6 +445,7 @@ def replay(data):
     r = data['replay']
     dr = Driver(*r['bounds'][:3], tuple(r.get('prios', PRIOS)), r.get('max_reset', 0))
     dr.flavor = r.get('flavor', 'api')
+    dr.max_arch = r.get('max_arch', 0)
     dr.reset()
     hits = []
     for ev in [tuple(e) for e in r['history']]:
